@@ -2,6 +2,7 @@ package vegeta_test
 
 import (
 	"bufio"
+	"bytes"
 	"context"
 	"fmt"
 	"io"
@@ -40,6 +41,9 @@ type c02Dial struct {
 	// request and closes the connection without answering (a keep-alive connection going stale under the client)
 	DropEvery int    `json:",omitempty"`
 	Method    string `json:",omitempty"` // "" = GET
+	// SlowTailMS > 0: the server sends 64 bytes of the body, the rest this much later; the attacker captures only
+	// MaxBody(16) bytes. The attack is over only when every response has been read to its end.
+	SlowTailMS int `json:",omitempty"`
 }
 
 // c02DropServer answers HTTP/1.1 requests on kept-alive connections and drops every n-th request of a connection.
@@ -94,7 +98,7 @@ func blockedLibGoroutines() map[string]string {
 			continue
 		}
 		switch m[2] {
-		case "running", "runnable", "syscall", "IO wait":
+		case "running", "runnable", "syscall":
 			continue
 		}
 		if len(g) > 1500 {
@@ -121,6 +125,14 @@ func runC02Dial(c c02Dial) error {
 	srv := httptest.NewServer(http.HandlerFunc(func(w http.ResponseWriter, r *http.Request) {
 		w.Header().Set("Connection", "close")
 		w.WriteHeader(200)
+		if c.SlowTailMS > 0 {
+			w.Write(bytes.Repeat([]byte("h"), 64))
+			if f, ok := w.(http.Flusher); ok {
+				f.Flush()
+			}
+			time.Sleep(time.Duration(c.SlowTailMS) * time.Millisecond)
+			w.Write(bytes.Repeat([]byte("t"), 64))
+		}
 	}))
 	defer srv.Close()
 	real := srv.Listener.Addr().String()
@@ -158,6 +170,9 @@ func runC02Dial(c c02Dial) error {
 	defer tr.CloseIdleConnections()
 	opts := []func(*vegeta.Attacker){vegeta.Client(&http.Client{Transport: tr}), vegeta.Workers(uint64(c.Workers)), vegeta.MaxWorkers(uint64(c.Workers)),
 		vegeta.DNSCaching(time.Duration(c.TTLms) * time.Millisecond)}
+	if c.SlowTailMS > 0 {
+		opts = append(opts, vegeta.MaxBody(16))
+	}
 	atk := vegeta.NewAttacker(opts...)
 	n := 0
 	tgt := vegeta.Target{Method: "GET", URL: "http://" + host + ":8080/"}
@@ -170,6 +185,9 @@ func runC02Dial(c c02Dial) error {
 		seqs[r.Seq]++
 	}
 	what := fmt.Sprintf("attack of %d hits by %d workers on a name resolving to %v (dns-ttl %dms, IPv%s dials %dms slower, IPv%s dials failing)", c.Hits, c.Workers, c.Addrs, c.TTLms, c.SlowFam, c.SlowMS, c.FailFam)
+	if c.SlowTailMS > 0 {
+		what += fmt.Sprintf(", MaxBody(16) against responses whose last 64 bytes arrive %d ms after the first 64", c.SlowTailMS)
+	}
 	if c.DropEvery > 0 {
 		what += fmt.Sprintf(", %s requests to a server that drops every %d. request of a kept-alive connection", tgt.Method, c.DropEvery)
 	}
@@ -220,6 +238,7 @@ func runC02Dial(c c02Dial) error {
 }
 
 func TestC02DialPath(t *testing.T) {
+	vh.ShrinkTime("10s")
 	vh.Check(t, 12, 150, func(t *rapid.T) {
 		c := c02Dial{TTLms: rapid.SampledFrom([]int{0, 0, 40}).Draw(t, "ttl"), Hits: rapid.IntRange(1, 30).Draw(t, "hits"), Workers: rapid.IntRange(1, 4).Draw(t, "workers")}
 		c.Addrs = rapid.SampledFrom([][]string{{"10.0.0.1", "fd00::1"}, {"10.0.0.1", "fd00::1"}, {"10.0.0.1", "10.0.0.2", "fd00::1", "fd00::2"}, {"10.0.0.1"}, {"fd00::1"}}).Draw(t, "addrs")
@@ -228,7 +247,9 @@ func TestC02DialPath(t *testing.T) {
 			c.SlowMS = rapid.SampledFrom([]int{1, 5, 20}).Draw(t, "slowms")
 		}
 		c.FailFam = rapid.SampledFrom([]string{"", "", "4", "6"}).Draw(t, "failfam")
-		if rapid.IntRange(0, 2).Draw(t, "drops") == 0 {
+		if rapid.IntRange(0, 5).Draw(t, "slowtail") == 0 {
+			c.SlowTailMS, c.Hits, c.Workers, c.FailFam = 1600, rapid.IntRange(1, 3).Draw(t, "tailhits"), 3, ""
+		} else if rapid.IntRange(0, 2).Draw(t, "drops") == 0 {
 			c.DropEvery = rapid.SampledFrom([]int{2, 2, 3, 5}).Draw(t, "dropevery")
 			c.Method = rapid.SampledFrom([]string{"POST", "PUT", "DELETE", "PATCH", "GET"}).Draw(t, "method")
 			c.FailFam, c.Hits = "", rapid.IntRange(4, 30).Draw(t, "drophits")
